@@ -112,6 +112,12 @@ def c06_1(ctx, ss):
     gf = grammar_facts(ss, G)
     # the replace call
     reps = [c for c in pf.calls_in(ff.node) if isinstance(c.func, ast.Attribute) and c.func.attr == "replace" and len(c.args) == 2]
+    if not reps:
+        # nothing writes the model alternation into the terminal: the grammar keeps its placeholder text
+        writes = [n for n in pf.walk_no_nested(ff.node) if isinstance(n, (ast.Assign, ast.AugAssign)) and "pattern" in txt(n.targets[0] if isinstance(n, ast.Assign) else n.target)]
+        if not writes:
+            ctx.violation("C06.1", ckey(ff, None, "inject"), where(ff, ff.node), "the callback never writes the model alternation into the MODEL_NAME pattern: no model name is recognised")
+            return
     if len(reps) != 1:
         raise AnchorMissing("edit_model_name_terminals: expected one .replace(placeholder, alternation)")
     rep = reps[0]
@@ -396,6 +402,7 @@ def c06_7(ctx, ss):
     stores = [s for s in pf.iter_stmts(ff.node.body) if isinstance(s, ast.Assign) and txt(s.targets[0]) == "self._additional_decay_models"]
     if not stores:
         raise AnchorMissing("load_additional_decay_models stores nothing")
+    seen_first, seen_more = [], []
     for s in stores:
         atoms, problems = seq_parts(s.value)
         conds = [c for c in guards.path_conditions(ff.node, s) if c[0] == "if"]
@@ -416,6 +423,10 @@ def c06_7(ctx, ss):
             ctx.undecided("C06.7", ckey(ff, None, "guard"), where(ff, s), f"registration is guarded by a test not understood: {[txt(e) for _, e, _ in conds]}")
             continue
         first = bool(pols) and all(pols)
+        if not pols:
+            seen_first.append(s); seen_more.append(s)       # unconditional store serves both cases
+        else:
+            (seen_first if first else seen_more).append(s)
         k = ckey(ff, None, "first" if first else "more")
         if problems:
             ctx.violation("C06.7", k, where(ff, s), f"registration stores `{txt(s.value)[:80]}` ({problems[0]}): some names are dropped")
@@ -425,3 +436,10 @@ def c06_7(ctx, ss):
             ctx.violation("C06.7", k, where(ff, s), "a second registration forgets the names registered earlier")
         else:
             ctx.holds("C06.7", k, where(ff, s), "all given names are stored" + ("" if first else " after the earlier ones"), 1)
+    for case, lst in (("the first registration", seen_first), ("a registration after an earlier one", seen_more)):
+        kk = ckey(ff, None, "stores:" + ("first" if lst is seen_first else "more"))
+        if lst:
+            ctx.holds("C06.7", kk, where(ff, lst[0]), f"{case} stores the names", 1)
+        else:
+            ctx.violation("C06.7", kk, where(ff, ff.node), f"{case} stores nothing: the names given in that call are lost")
+
